@@ -28,7 +28,7 @@ PROPS = {
     "C12": dict(modules=[], ties=[], streams=["score"]),
     "C13": dict(modules=[], ties=["Cvss.Model.SrcTie"], streams=["parse"]),
     "C14": dict(modules=[], ties=["Cvss.Model.SrcTie"], streams=["race"]),
-    "C15": dict(modules=[], ties=[], streams=["rating"]),
+    "C15": dict(modules=["Cvss.Props.C15"], ties=[], streams=["rating"]),
     "C16": dict(modules=[], ties=[], streams=["obj"]),
     "C17": dict(modules=[], ties=[], streams=["obj", "alloc"]),
     "C18": dict(modules=[], ties=["Cvss.Model.SrcTie"], streams=["defect", "obj", "parse"]),
@@ -49,5 +49,14 @@ LEVEL_TEXT = {
     pid: _lt("exploration", _PENDING, _NOTE, "differential testing of the implementation against an executable Lean Spec and model (proofs pending)")
     for pid in ["C01", "C02", "C06", "C07", "C08", "C09", "C13", "C16", "C17", "C18"]
 }
-for pid in ["C03", "C04", "C05", "C10", "C11", "C12", "C14", "C15"]:
+LEVEL_TEXT["C15"] = _lt(
+    "proof",
+    "Lean 4 theorems rating30/31/40_spec: for EVERY non-NaN float64 bit pattern the regenerated Rating of each package returns exactly what the "
+    "qualitative scale (Spec/Rating.lean, exact values num/2^1075, no floats) prescribes for the real number denoted, incl. -0, subnormals, +-Inf; "
+    "rating_same: the three packages' functions are equal; rating*_nan: what happens on NaN. No enumeration: order lemmas F64.lt/le = order of exact values, "
+    "and the number-theoretic lemma that no double lies in [1/10, fl(0.1)). Proofs unfold the regenerated definitions, so a changed threshold/operator/string breaks them.",
+    "trusted: Lean kernel; translator for Rating (validated by the rating stream: 7k/600k bit patterns incl. every threshold and its float neighbours, compared "
+    "with the real functions); F64.lt/F64.le formalisation (proved equal to the exact order, so only the IEEE decoding in Spec/Rating.lean is trusted)",
+    "Lean 4 proof over all float64 (structural, omega) on the regenerated model + differential validation of the translation")
+for pid in ["C03", "C04", "C05", "C10", "C11", "C12", "C14"]:
     NOT_CLAIMED[pid] = "check under construction (Spec and theorems for this property are not merged yet); see DESIGN.md section 7"
